@@ -185,6 +185,11 @@ class OperatorMapper:
         if operation is operator.le or operator_name == "le":
             return left <= right
         if operation is operator.ne or operator_name == "ne":
+            # in memory None != value holds, in SQL NULL != value is NULL: compare NULL-safe (IS DISTINCT FROM).
+            if hasattr(left, "is_distinct_from"):
+                return left.is_distinct_from(right)
+            if hasattr(right, "is_distinct_from"):
+                return right.is_distinct_from(left)
             return left != right
 
         raise UnsupportedOperatorError(f"Unknown operator: {operation}")
